@@ -205,8 +205,6 @@ CREATE = [
 GROW = [
     (r"^if self \. capacity (\( \) )?>= MAX_DATA_CAPACITY as usize \{ return false ; \}$", "checkRoom", None),
     DBG,
-    (r"^let (?P<new_capacity>\w+) = self \. capacity (\( \) )?\. saturating_add \( 1 \) \. saturating_mul \( 2 \) ;$", "newCapacity", None),
-    (r"^let (?P<new_capacity>\w+) = new_capacity \. min \( MAX_DATA_CAPACITY as usize \) ;$", "newCapacity", None),
     (r"^self \. slots \. grow \( self \. capacity , new_capacity \) ;$", "growSlots", None),
     (r"^self \. entities \. grow \( self \. capacity , new_capacity \) ;$", "growEntities", None),
     (r"^# \( self \. d ~ I \. get_mut \( \) \. grow \( self \. capacity , new_capacity \) ; \) \*$", "growColumns", None),
@@ -215,6 +213,144 @@ GROW = [
     (r"^self \. free_head = Slot :: populate_free_list \( free_start , slots \) ;$", "populate", None),
     (r"^self \. capacity = new_capacity ;$", "setCapacity", None),
     (r"^true$", "returnTrue", None),
+    # the VALUE of the new capacity is not translated (a growth witness checked against `GrowOk` on every grown
+    # sequence): any pure `let new_capacity = <expr>;` (no assignment inside) binds it
+    (r"^let (?P<new_capacity>\w+) = [^;=]* ;$", "newCapacity", None),
+]
+
+DBGCFG = r"# \[ cfg \( debug_assertions \) \] "
+
+RESOLVE_ENTITY = [
+    (r"^debug_assert ! \( self \. len <= self \. capacity (\( \) )?\) ;$", "dbgLenLeCap", None),
+    (r"^if self \. len (\( \) )?== 0 \{ return None ; \}$", "ifEmptyReturnNone", None),
+    (r"^let (?P<slot_index>\w+) = entity \. slot_index \( \) ;$", "bindSlotIndex", None),
+    (r"^let (?P<slot_index_usize>\w+) : usize = slot_index \. into \( \) ;$", "bindSlotIndexUsize", None),
+    (r'^debug_assert ! \( slot_index_usize < self \. capacity (\( \) )?(, "[^"]*" )?\) ;$', "dbgSlotInRange", None),
+    (r"^if slot_index_usize >= self \. capacity (\( \) )?\{ return None ; \}$", "ifSlotOutOfRangeReturnNone", None),
+    (r"^let (?P<slots>\w+) = self \. slots \. slice \( self \. capacity (\( \) )?\) ;$", "bindSlots", None),
+    (r"^let (?P<slot>\w+) = slots \. get_unchecked \( slot_index_usize \) ;$", "bindSlot", None),
+    (r"^if \( slot \. version \( \) != entity \. version \( \) \) \|\| slot \. is_free \( \) \{ return None ; \}$", "ifStaleOrFreeReturnNone", None),
+    (r"^let (?P<dense_index>\w+) = slot \. index \( \) \. index_data \( \) \. unwrap_unchecked \( \) ;$", "bindDense", None),
+    (r"^" + DBGCFG + r"\{ let (?P<dense_index_usize>\w+) : usize = dense_index \. into \( \) ; "
+     r"debug_assert ! \( dense_index_usize < self \. len (\( \) )?\) ; "
+     r"let (?P<entities>\w+) = self \. entities \. slice \( self \. len (\( \) )?\) ; "
+     r"let (?P<lookup>\w+) = (?P=entities) \. get_unchecked \( (?P=dense_index_usize) \) ; "
+     r"debug_assert ! \( (?P=lookup) \. slot_index \( \) == entity \. slot_index \( \) \) ; "
+     r"debug_assert ! \( (?P=lookup) \. version \( \) == entity \. version \( \) \) ; \}$", "debugCrossCheck", None),
+    (r"^Some \( \( slot_index , dense_index \) \)$", "returnSome", None),
+]
+
+RESOLVE_DIRECT = [
+    (r"^debug_assert ! \( self \. len <= self \. capacity (\( \) )?\) ;$", "dbgLenLeCap", None),
+    (r"^if self \. len (\( \) )?== 0 \{ return None ; \}$", "ifEmptyReturnNone", None),
+    (r"^if entity \. version \( \) != self \. version (\( \) )?\{ return None ; \}$", "ifVersionMismatchReturnNone", None),
+    (r"^let (?P<dense_index>\w+) = entity \. dense_index \( \) ;$", "bindDenseIndex", None),
+    (r"^let (?P<dense_index_usize>\w+) : usize = dense_index \. into \( \) ;$", "bindDenseIndexUsize", None),
+    (r'^debug_assert ! \( dense_index_usize < self \. len (\( \) )?(, "[^"]*" )?\) ;$', "dbgDenseInRange", None),
+    (r"^if dense_index_usize >= self \. len (\( \) )?\{ return None ; \}$", "ifDenseOutOfRangeReturnNone", None),
+    (r"^let (?P<entities>\w+) = self \. entities \. slice \( self \. len (\( \) )?\) ;$", "bindEntities", None),
+    (r"^let (?P<lookup>\w+) = entities \. get_unchecked \( dense_index_usize \) ;$", "bindLookup", None),
+    (r"^let (?P<slot_index>\w+) = lookup \. slot_index \( \) ;$", "bindSlotIndex", None),
+    (r"^" + DBGCFG + r"\{ let (?P<slot_index_usize>\w+) : usize = slot_index \. into \( \) ; "
+     r"debug_assert ! \( (?P=slot_index_usize) < self \. capacity (\( \) )?\) ; "
+     r"let (?P<slots>\w+) = self \. slots \. slice \( self \. capacity (\( \) )?\) ; "
+     r"let (?P<slot>\w+) = (?P=slots) \. get_unchecked \( (?P=slot_index_usize) \) ; "
+     r"debug_assert ! \( lookup \. version \( \) == (?P=slot) \. version \( \) \) ; "
+     r"debug_assert ! \( (?P=slot) \. is_free \( \) == false \) ; \}$", "debugCrossCheck", None),
+    (r"^Some \( \( slot_index , dense_index \) \)$", "returnSome", None),
+]
+
+CLONE = [
+    (r"^# \( let ref_d ~ I = self \. d ~ I \. borrow \( \) ; \) \*$", "borrowColumns", None),
+    (r"^let mut (?P<new_slots>\w+) = DataPtr :: with_capacity \( self \. capacity (\( \) )?\) ;$", "allocSlots", "first"),
+    (r"^let mut (?P<new_entities>\w+) = DataPtr :: with_capacity \( self \. capacity (\( \) )?\) ;$", "allocEntities", "second"),
+    (r"^# \( let mut new_d ~ I = DataPtr :: with_capacity \( self \. capacity (\( \) )?\) ; \) \*$", "allocColumns", None),
+    (r"^let (?P<old_slots>\w+) = self \. slots \. slice \( self \. capacity (\( \) )?\) ;$", "bindOldSlots", None),
+    (r"^let (?P<old_entities>\w+) = self \. entities \. slice \( self \. len (\( \) )?\) ;$", "bindOldEntities", None),
+    (r"^# \( let old_ ~ I = ref_d ~ I \. slice \( self \. len (\( \) )?\) ; \) \*$", "bindOldColumns", None),
+    (r"^for (?P<idx>\w+) in 0 \.\. self \. capacity (\( \) )?\{ new_slots \. write \( (?P=idx) , old_slots \. get_unchecked \( (?P=idx) \) \. clone \( \) \) ; \}$",
+     "copySlotsLoop", None),
+    (r"^for (?P<idx>\w+) in 0 \.\. self \. len (\( \) )?\{ new_entities \. write \( (?P=idx) , old_entities \. get_unchecked \( (?P=idx) \) \. clone \( \) \) ; "
+     r"# \( new_d ~ I \. write \( (?P=idx) , old_ ~ I \. get_unchecked \( (?P=idx) \) \. clone \( \) \) ; \) \* \}$", "copyRowsLoop", None),
+    (r"^Self \{ .* \}$", "returnSelfLiteral", None),
+]
+
+CLONE_FIELDS = [
+    (r"^len : self \. len$", "lenFromSelf", None),
+    (r"^version : self \. version$", "versionFromSelf", None),
+    (r"^capacity : self \. capacity$", "capacityFromSelf", None),
+    (r"^free_head : self \. free_head$", "freeHeadFromSelf", None),
+    (r"^slots : new_slots$", "slotsNew", None),
+    (r"^entities : new_entities$", "entitiesNew", None),
+    (r"^# \( d ~ I : RefCell :: new \( new_d ~ I \) , \) \*$", "columnsNew", None),
+    (r"^" + EVENTS + r"created : self \. created \. clone \( \)$", "createdClone", None),
+    (r"^" + EVENTS + r"destroyed : self \. destroyed \. clone \( \)$", "destroyedClone", None),
+]
+
+DROP = [
+    (r"^# \( self \. d ~ I \. get_mut \( \) \. drop_to \( self \. len \) ; \) \*$", "dropColumnsToLen", None),
+    (r"^self \. slots \. dealloc \( self \. capacity \) ;$", "deallocSlots", None),
+    (r"^self \. entities \. dealloc \( self \. capacity \) ;$", "deallocEntities", None),
+    (r"^# \( self \. d ~ I \. get_mut \( \) \. dealloc \( self \. capacity \) ; \) \*$", "deallocColumns", None),
+]
+
+
+def split_fields(ts):
+    """items of a struct literal body: top-level commas; a `#( … )*` group is an item of its own."""
+    out, cur, i, n = [], [], 0, len(ts)
+    while i < n:
+        t = ts[i]
+        if t == "#" and i + 1 < n and ts[i + 1] == "(" and not cur:
+            e = _end_of(ts, i + 1)
+            if e < n and ts[e] == "*":
+                e += 1
+            out.append(ts[i:e])
+            i = e
+            continue
+        if t in OPEN:
+            e = _end_of(ts, i)
+            cur += ts[i:e]
+            i = e
+            continue
+        if t == ",":
+            if cur:
+                out.append(cur)
+            cur = []
+        else:
+            cur.append(t)
+        i += 1
+    if cur:
+        out.append(cur)
+    return out
+
+
+def find_seq(toks, seq, lo=0):
+    n = len(seq)
+    for i in range(lo, len(toks) - n):
+        if [t for (_, t) in toks[i:i + n]] == seq:
+            return i
+    raise ExtractError(f"`{' '.join(seq)}` not found")
+
+PUSH = [
+    (r"^debug_assert ! \( self \. len <= self \. capacity (\( \) )?\) ;$", "dbgLenLeCap", None),
+    (r'^if self \. len >= self \. capacity (\( \) )?\{ (debug_assert ! \( [^;]* \) ; )?if self \. grow \( \) == false \{ panic ! \( "capacity overflow" \) ; \} \}$',
+     "growIfFullOrPanic", "push"),
+    (r"^if self \. len >= self \. capacity (\( \) )?\{ (debug_assert ! \( [^;]* \) ; )?return Err \( data \) ; \}$", "errIfFull", "push_within_capacity"),
+    (r"^self \. force_create \( data \)$", "tailForceCreate", "push"),
+    (r"^Ok \( unsafe \{ self \. force_create \( data \) \} \)$", "tailOkForceCreate", "push_within_capacity"),
+]
+
+KEYGLUE = [
+    (r"^let \( _ , (?P<dense_index>\w+) \) = self \. resolve_entity \( entity \) \? ;$", "bindDenseFromResolveEntity", None),
+    (r"^let \( _ , (?P<dense_index>\w+) \) = self \. resolve_direct \( entity \) \? ;$", "bindDenseFromResolveDirect", None),
+    (r"^let (?P<dense_index_usize>\w+) (: usize )?= dense_index \. into \( \) ;$", "bindDenseUsize", None),
+    (r"^debug_checked_assume ! \( self \. len <= MAX_DATA_CAPACITY as usize \) ;$", "assumeLenLeMax", None),
+    (r"^debug_checked_assume ! \( self \. len >= dense_index_usize \) ;$", "assumeLenGeDense", None),
+    (r"^Some \( dense_index_usize \)$", "returnSomeDenseUsize", None),
+    (r"^Some \( EntityDirect :: new \( dense_index , self \. version (\( \) )?\) \)$", "returnSomeDirectCurrentVersion", None),
+    (r"^self \. resolve_direct \( entity \) \. map \( \| _ \| entity \)$", "returnResolveDirectMapEntity", None),
+    (r"^Some \( self \. force_destroy \( self \. resolve_entity \( entity \) \? \) \)$", "returnSomeForceDestroyResolveEntity", None),
+    (r"^Some \( self \. force_destroy \( self \. resolve_direct \( entity \) \? \) \)$", "returnSomeForceDestroyResolveDirect", None),
 ]
 
 SLOT = [
@@ -234,7 +370,11 @@ def classify(stmts, table, rename=None, only=None):
         text = " ".join(ts)
         hit = None
         for (pat, ctor, restrict) in table:
-            if restrict is not None and restrict != only:
+            if restrict in ("first", "second"):
+                seen = sum(1 for (c, _) in out if c in ("allocSlots", "allocEntities"))
+                if (restrict == "first") != (seen == 0):
+                    continue
+            elif restrict is not None and restrict != only:
                 continue
             m = re.match(pat, text)
             if m:
@@ -245,6 +385,7 @@ def classify(stmts, table, rename=None, only=None):
                     # a rebinding under the canonical name (e.g. `data`) stays as is
                 break
         out.append((hit or "unknown", " ".join(st)))
+    classify.last_rename = rename
     return out
 
 
@@ -296,10 +437,80 @@ def extract_steps():
         except (ExtractError, IndexError) as ex:
             rows = [("unknown", f"NOT RECOGNISED: {ex}")]
         parts.append(lean_list(name, ty, rows, f"src/archetype/storage.rs `StorageN::{fn}`, statements in source order"))
+    # --- the two validating lookups (the inherent `resolve_direct` is the FIRST fn of that name in the file;
+    #     the trait method of the same name further down takes a key and delegates)
+    for fn, table, ty, name, pren in (("resolve_entity", RESOLVE_ENTITY, "REStep", "resolveEntitySteps", ["entity"]),
+                                      ("resolve_direct", RESOLVE_DIRECT, "RDStep", "resolveDirectSteps", ["entity"])):
+        try:
+            params, lo, hi = find_fn(sto, fn)
+            names = param_names(params)
+            ren = {nm: canon for nm, canon in zip(names, pren)}
+            rows = classify(split_stmts(toks_of(sto, lo, hi)), table, ren)
+            if len(names) != len(pren):
+                rows.append(("unknown", f"unexpected parameter list ({', '.join(names)})"))
+        except (ExtractError, IndexError) as ex:
+            rows = [("unknown", f"NOT RECOGNISED: {ex}")]
+        parts.append(lean_list(name, ty, rows, f"src/archetype/storage.rs `StorageN::{fn}`, statements in source order"))
+    for fn, name in (("push", "pushSteps"), ("push_within_capacity", "pushWithinSteps")):
+        try:
+            params, lo, hi = find_fn(sto, fn)
+            names = param_names(params)
+            rows = classify(split_stmts(toks_of(sto, lo, hi)), PUSH, {nm: "data" for nm in names}, only=fn)
+            if len(names) != 1:
+                rows.append(("unknown", f"unexpected parameter list ({', '.join(names)})"))
+        except (ExtractError, IndexError) as ex:
+            rows = [("unknown", f"NOT RECOGNISED: {ex}")]
+        parts.append(lean_list(name, "UStep", rows, f"src/archetype/storage.rs `StorageN::{fn}`, statements in source order"))
+    # --- the six StorageCanResolve methods (glue between the public API and the lookups)
+    for hdr, pre in ((["StorageCanResolve", "<", "Entity", "<"], "ent"), (["StorageCanResolve", "<", "EntityDirect", "<"], "dir")):
+        for fn, suffix in (("resolve_for", "ResolveFor"), ("resolve_direct", "ToDirect"), ("resolve_destroy", "Destroy")):
+            try:
+                at = find_seq(sto, ["impl"] if False else hdr)
+                # the impl header we want is the one followed by `for $name` (the trait DEFINITION is in traits.rs)
+                while [t for (_, t) in sto[at:at + 40]].count("for") == 0:
+                    at = find_seq(sto, hdr, at + 1)
+                params, lo, hi = find_fn(sto, fn, at)
+                names = param_names(params)
+                rows = classify(split_stmts(toks_of(sto, lo, hi)), KEYGLUE, {nm: "entity" for nm in names})
+                if len(names) != 1:
+                    rows.append(("unknown", f"unexpected parameter list ({', '.join(names)})"))
+            except (ExtractError, IndexError) as ex:
+                rows = [("unknown", f"NOT RECOGNISED: {ex}")]
+            kind = "Entity<A>" if pre == "ent" else "EntityDirect<A>"
+            parts.append(lean_list(pre + suffix, "WStep", rows, f"src/archetype/storage.rs `StorageCanResolve<{kind}>::{fn}`, statements in source order"))
+    # --- Clone / Drop impls of the storage
+    try:
+        at = find_seq(sto, ["Clone", "for", "$", "name"])
+        params, lo, hi = find_fn(sto, "clone", at)
+        stmts = split_stmts(toks_of(sto, lo, hi))
+        rows = classify(stmts, CLONE)
+        lit = [st for st in stmts if st and st[0] == "Self"]
+        ren = {}
+        for (c, src), st in zip(rows, stmts):
+            pass
+        # binder renames made while classifying the body also apply inside the literal
+        ren = classify.last_rename
+        frows = []
+        if len(lit) == 1:
+            frows = classify(split_fields(lit[0][2:-1]), CLONE_FIELDS, ren)
+        else:
+            frows = [("unknown", "expected exactly one `Self { … }` literal")]
+    except (ExtractError, IndexError) as ex:
+        rows = [("unknown", f"NOT RECOGNISED: {ex}")]
+        frows = [("unknown", f"NOT RECOGNISED: {ex}")]
+    parts.append(lean_list("cloneSteps", "KStep", rows, "src/archetype/storage.rs `Clone for StorageN`: statements of `clone`, in source order"))
+    parts.append(lean_list("cloneFields", "KField", frows, "… and the field initialisers of the `Self { … }` literal it returns"))
+    try:
+        at = find_seq(sto, ["Drop", "for", "$", "name"])
+        params, lo, hi = find_fn(sto, "drop", at)
+        rows = classify(split_stmts(toks_of(sto, lo, hi)), DROP)
+    except (ExtractError, IndexError) as ex:
+        rows = [("unknown", f"NOT RECOGNISED: {ex}")]
+    parts.append(lean_list("dropSteps", "PStep", rows, "src/archetype/storage.rs `Drop for StorageN`: statements of `drop`, in source order"))
     head = ("/- GENERATED by tools/extract.py (tools/extract_steps.py) from /repo/src/archetype/{storage.rs, slot.rs} on every run.\n"
             "   Do not edit.  The statements of the mutating primitives, classified and listed in source order; meaning:\n"
             "   Gecs/Model/Steps.lean; tie theorems: Gecs/Lemmas/GenSteps.lean. -/\n"
-            "import Gecs.Model.Steps\n\nnamespace Gecs.Gen\n\n")
+            "import Gecs.Model.Steps\nimport Gecs.Model.ResolveSteps\nimport Gecs.Model.CloneSteps\nimport Gecs.Model.PushSteps\nimport Gecs.Model.KeySteps\n\nnamespace Gecs.Gen\n\n")
     return head + "\n\n".join(parts) + "\n\nend Gecs.Gen\n"
 
 
